@@ -1,5 +1,6 @@
 """C13 - Strategies are isolated from each other and from callback errors."""
 import copy
+import json
 
 from hypothesis import strategies as st
 
@@ -43,7 +44,14 @@ def scenario(draw, tier="quick"):
     fault = None
     if draw(st.integers(0, 3)) > 0:
         fault = {"cb": draw(st.sampled_from(CBS)), "n": draw(st.integers(0, 12)), "exc": draw(st.sampled_from(["flumine", "plain"]))}
-    return {"market": spec, "scripts": scripts, "own_client": own_client, "fault": fault,
+    filters = {}
+    if steps and steps[-1]["k"] == "close" and draw(st.integers(0, 2)) == 0:
+        # strategies with different listener filters on the same file (each filter set gets its own stream); only
+        # for recordings that end with the closure, after which the simulation drops the market
+        for name in "ABC":
+            filters[name] = draw(st.sampled_from([{}, {}, {"inplay": True}, {"inplay": False}, {"seconds_to_start": 10},
+                                                  {"max_inplay_seconds": 5}, {"inplay": True, "max_inplay_seconds": 20}]))
+    return {"market": spec, "scripts": scripts, "own_client": own_client, "fault": fault, "filters": filters,
             "limits": draw(st.sampled_from([{}, {"max_live_trade_count": 2}, {"max_selection_exposure": 50, "max_order_exposure": 30}]))}
 
 
@@ -84,6 +92,10 @@ def build(c, names, fault=None):
     for i, n in enumerate(names):
         s = gen.strategy_spec(n, client=(0 if (n == "A" or not c["own_client"]) else 1), script=copy.deepcopy(c["scripts"][n]))
         s.update(c["limits"])
+        steps_ = c["market"]["steps"]
+        if (c.get("filters") or {}).get(n) and steps_ and steps_[-1]["k"] == "close":
+            # (a minimised case that lost its closing step runs without filters: see scenario())
+            s["listener_kwargs"] = dict(c["filters"][n])
         if fault and n == "B" and fault["cb"] != "middleware":
             s["fault"] = fault
         strategies.append(s)
@@ -120,8 +132,34 @@ def diff(a, b):
     return "op results differ: %s vs %s" % (a["ops"], b["ops"])
 
 
+KNOWN_FACT = "only-with-separate-streams-of-one-file"
+
+
+def ledger_violation(c, names, base, led, clause, facts, what, fault=None):
+    """A's ledger differs.  One root cause is singled out by an extra fact (recorded as a known finding): strategies
+    with different listener filters get one stream each and the recording is replayed once per stream into the SAME
+    kept market / blotter / middleware state, so e.g. an order still live when the first pass closed the market is
+    matched again by the replayed volume of the next pass, and a runner removal recorded by an earlier pass is not
+    applied to orders placed in a later one.  The attribution is differential: the same strategies are run again with
+    every co-runner given A's own filter (one shared stream); only if A's ledger then equals its solo ledger is the
+    difference put down to the separate streams."""
+    flt = c.get("filters") or {}
+    steps_ = c["market"]["steps"]
+    n_streams = len({json.dumps(flt.get(n) or {}, sort_keys=True) for n in names}) if steps_ and steps_[-1]["k"] == "close" else 1
+    if n_streams > 1:
+        c2 = copy.deepcopy(c)
+        c2["filters"] = {n: dict(flt.get("A") or {}) for n in "ABC"}
+        led2 = run(c2, names, fault)[0]
+        if led2["A"] == base:
+            facts = tuple(facts) + (KNOWN_FACT,)
+    return Violation(clause, facts, what, c)
+
+
 def check(c):
     classes = set()
+    flt = c.get("filters") or {}
+    if len({json.dumps(flt.get(n) or {}, sort_keys=True) for n in "ABC"}) > 1:
+        classes.add("strategies-with-different-listener-filters")
     base, seq0, _, _, lb0 = run(c, ["A"])
     ups = lb0.renderers[0].updates
     nontrivial = False
@@ -129,7 +167,10 @@ def check(c):
         led, seq, order, _, lb = run(c, names)
         d = diff(base["A"], led["A"])
         if d:
-            raise Violation("ledger-depends-on-co-running-strategies", ("+".join(names),), "A alone vs %s: %s" % (names, d), c)
+            if seq["A"] != seq0["A"]:
+                raise Violation("update-sequence-differs", ("+".join(names),), "A's received updates differ when run with %s" % names, c)
+            raise ledger_violation(c, names, base["A"], led["A"], "ledger-depends-on-co-running-strategies", ("+".join(names),),
+                                   "A alone vs %s: %s" % (names, d))
         if seq["A"] != seq0["A"]:
             raise Violation("update-sequence-differs", ("+".join(names),), "A's received updates differ when run with %s" % names, c)
         if names == ["A", "B"]:
@@ -148,14 +189,15 @@ def check(c):
               classes.add("fault:%s:%s" % (f["cb"], f["exc"]))
               d = diff(base["A"], led["A"])
               if d:
-                  raise Violation("callback-error-not-contained", (f["cb"], f["exc"], "ledger"), "fault in B's %s #%d changed A: %s" % (f["cb"], f["n"], d), c)
+                  raise ledger_violation(c, fnames, base["A"], led["A"], "callback-error-not-contained", (f["cb"], f["exc"], "ledger"),
+                                         "fault in B's %s #%d changed A: %s" % (f["cb"], f["n"], d), fault=f)
               if seq["A"] != seq0["A"]:
                   raise Violation("callback-error-not-contained", (f["cb"], f["exc"], "updates"), "fault in B's %s #%d: A received %d updates instead of %d" % (
                       f["cb"], f["n"], len(seq["A"]), len(seq0["A"])), c)
               # B still gets every update exactly once (check_market_book for every non-closed update)
               exp = [u.pt for u in ups if u.status != "CLOSED"]
               got = [int(round((t - __import__("datetime").datetime(1970, 1, 1)).total_seconds() * 1000)) for m, t, cb in seq["B"] if cb == "check_market_book"]
-              if got != exp:
+              if got != exp and not flt.get("B"):
                   raise Violation("callback-error-not-contained", (f["cb"], f["exc"], "faulty-strategy-updates"),
                                   "after its fault B received %d of %d updates" % (len(got), len(exp)), c)
               # middleware before strategies at every update
